@@ -22,6 +22,7 @@ class Event:
         self.kind, self.eff, self.ctx, self.order = kind, eff, ctx, order
         self.fam = None
         self.err = None
+        self.strict = None
         allifs = [(c, br) for c, br in ctx if c.kind == 'if']
         self.status_guards = [(c, br) for c, br in allifs if is_status_cond(c.cond)]
         self.sym_ifs = [(c, br) for c, br in allifs if not is_status_cond(c.cond)]
@@ -125,10 +126,13 @@ class LPRun:
                 ev = Event(e.kind, e, ctx, n)
                 n += 1
                 if e.kind == 'addc':
+                    ev.strict = e.cmp[1] if (e.cmp[0] == 'cmp' and e.cmp[1] in ('Lt', 'Gt', 'NotEq')) else None
                     try:
                         ev.fam = norm_family(self.canon.family(e.cmp, ctx))
                     except Unknown as u:
                         ev.err = str(u)
+                    if ev.strict:
+                        ev.fam, ev.err = None, 'strict comparison'
                 self.events.append(ev)
 
     def of(self, *kinds):
@@ -173,6 +177,16 @@ def norm_family(f):
             ps.remove('l(p) - l(q) == 0')
         ms.append(lp.Mono(m.coef, m.var, m.sumvar, tuple(ps)))
     return lp.Family(f.quants, f.guards, f.op, ms)
+
+
+def report_unnormalised(rep, rule, e, what, cfg=''):
+    """a constraint that has no normal form: inconclusive - unless it is not a constraint at all (`<`, `>`, `!=` between LP
+    expressions: PuLP defines only <=, >= and ==, Python then raises TypeError or adds the truth value of a comparison)"""
+    if getattr(e, 'strict', None):
+        rep.fail(rule, e.where, 'what is added to the problem is a constraint: PuLP builds one from <=, >= and == only %s' % cfg,
+                 got='%s between LP expressions' % {'Lt': '<', 'Gt': '>', 'NotEq': '!='}[e.strict], want='<=, >= or ==', construct='strict / != comparison added as a constraint', loc=e.loc)
+    else:
+        rep.inconclusive(rule, e.where, what, got=e.err, loc=e.loc)
 
 
 def get_run(repo, pc, stab, criteria, twopl=S('TWOPL')):
@@ -344,7 +358,7 @@ def closed_classification(rep, r, rule, cfg):
     seen = set()
     for e in pre:
         if e.fam is None:
-            rep.inconclusive(rule, e.where, 'every constraint added before the first solve is classified %s' % cfg, got=e.err, loc=e.loc)
+            report_unnormalised(rep, rule, e, 'every constraint added before the first solve is classified %s' % cfg, cfg)
             continue
         k = cores.get(e.fam.core())
         if k is None:
